@@ -66,6 +66,9 @@ class Resolver:
                 return ("cls", c.qual)
             if node.id in ("Any",):
                 return None
+            al = self._type_alias(node.id, mod, 0)
+            if al is not None:
+                return al
             return ("ext", node.id)
         if isinstance(node, ast.Attribute):
             full = norm(node)
@@ -109,6 +112,22 @@ class Resolver:
             return None
         if isinstance(node, ast.BinOp) and isinstance(node.op, ast.BitOr):
             return self.ann(node.left, mod) or self.ann(node.right, mod)
+        return None
+
+    def _type_alias(self, name: str, mod, depth: int) -> T:
+        if mod is None or depth > 4:
+            return None
+        for st in mod.node.body:
+            if isinstance(st, ast.Assign) and isinstance(st.targets[0], ast.Name) and st.targets[0].id == name \
+                    and isinstance(st.value, ast.Subscript):
+                return self.ann(st.value, mod)
+        if name in mod.imports:
+            origin = mod.imports[name]
+            if "." in origin:
+                mn, nm = origin.rsplit(".", 1)
+                m2 = self.repo.modules.get(mn)
+                if m2 is not None and m2 is not mod:
+                    return self._type_alias(nm, m2, depth + 1)
         return None
 
     def _class_by_name(self, name: str, mod) -> Optional[Class]:
@@ -240,9 +259,20 @@ class Resolver:
                                 if isinstance(t, ast.Attribute) and t.attr == name and norm(t.value) == sn:
                                     tv = self.expr_type(st.value, f)
                                     found = True
-                                    if tv is not None:
+                                    if tv is not None and tv != ("ext", "None"):
                                         res = tv
                                         break
+                                    if tv is not None and res is None:
+                                        none_seen = True
+                                if isinstance(t, (ast.Tuple, ast.List)):
+                                    for i, el in enumerate(t.elts):
+                                        if isinstance(el, ast.Attribute) and el.attr == name and norm(el.value) == sn:
+                                            tv = self.expr_type(st.value, f)
+                                            found = True
+                                            if tv and tv[0] == "tuple" and i < len(tv[1]) and tv[1][i] is not None:
+                                                res = tv[1][i]
+                                            elif tv and tv[0] in ("list", "tuple*") and tv[1] is not None:
+                                                res = tv[1]
                             if res is not None:
                                 break
                     if res is not None:
@@ -412,6 +442,11 @@ class Resolver:
                 if isinstance(e.slice, ast.Constant) and isinstance(e.slice.value, int) \
                         and -len(base[1]) <= e.slice.value < len(base[1]):
                     return base[1][e.slice.value]
+                if is_slice and e.slice.step is None:
+                    lo = e.slice.lower.value if isinstance(e.slice.lower, ast.Constant) else (0 if e.slice.lower is None else None)
+                    hi = e.slice.upper.value if isinstance(e.slice.upper, ast.Constant) else (len(base[1]) if e.slice.upper is None else None)
+                    if isinstance(lo, int) and isinstance(hi, int):
+                        return ("tuple", tuple(base[1][lo:hi]))
                 return None
             if base[0] == "cls":
                 gi = self.find_member(base[1], "__getitem__", "method")
@@ -616,7 +651,7 @@ class Resolver:
             t = env.get(nm) if nm in env else self._global_name(nm, f)
             return self._apply(t, e, f, env)
         t = self.expr_type(fn, f, env)
-        if t is not None:
+        if t is not None and not (t[0] == "ext" and isinstance(fn, ast.Attribute)):
             return self._apply(t, e, f, env)
         if isinstance(fn, ast.Attribute):
             base = self.expr_type(fn.value, f, env)
